@@ -235,14 +235,14 @@ pub fn run_c12(w: &mut W) {
             sut.parse(2, p);
         }
         sut.parsers[0].allowed_versions = s.iter().cloned().collect();
-        sut.parsers[1].allowed_versions = (0..=65535u16).collect();
-        sut.parsers[2].allowed_versions = (0..=65535u16).collect();
+        sut.parsers[1].allowed_versions = super::common::all_versions();
+        sut.parsers[2].allowed_versions = super::common::all_versions();
         let ra = sut.parse(0, &buf);
         let rb = sut.parse(1, &buf);
         w.rep.count("pairs", 1);
         w.rep.count(&format!("allowed_subset.{:04b}", subset), 1);
         let verdict: Result<(), Div> = (|| {
-            let all: std::collections::HashSet<u16> = (0..=65535u16).collect();
+            let all: std::collections::HashSet<u16> = super::common::all_versions();
             let acct = match account(&buf, &rb, &all) {
                 Ok(a) => a,
                 Err(_) => return Ok(()), // C02's domain
@@ -564,6 +564,9 @@ pub fn run_c06(w: &mut W) {
         let nops = 3 + rng.usize(10);
         let mut shape = String::new();
         let mut ok = true;
+        // conformant packets delivered to each parser, with what each call returned (for the
+        // split-invariance epilogue)
+        let mut delivered: Vec<Vec<(Vec<u8>, String)>> = vec![vec![]; np];
         for _ in 0..nops {
             let pi = rng.usize(np);
             let before: Vec<Snap> = sut.parsers.iter().map(snap).collect();
@@ -592,6 +595,8 @@ pub fn run_c06(w: &mut W) {
                     exs[pi] = trial;
                     shape.push_str(&pkt_shape(&pkt));
                     shape.push(';');
+                    let c = canon(&res);
+                    delivered[pi].push((wire.clone(), c[1..c.len() - 1].to_string()));
                     verdict = (|| {
                         match (&pkt, res.as_slice()) {
                             (Pkt::V9(a), [NetflowPacket::V9(g)]) => check_v9(a, g, &mut st)?,
@@ -713,6 +718,39 @@ pub fn run_c06(w: &mut W) {
                 w.rep.violation(sig("C06", &d), &d, sut.replay_json());
                 ok = false;
                 break;
+            }
+        }
+        // split-invariance epilogue: the conformant packets a parser received, delivered to a fresh
+        // parser in ONE buffer, must give the same results and the same final caches (the no-op
+        // inputs in between changed nothing, so they can be left out)
+        if ok {
+            for pi in 0..np {
+                if pi == np - 1 && restricted.is_some() {
+                    continue;
+                }
+                let total: usize = delivered[pi].iter().map(|d| d.0.len()).sum();
+                if delivered[pi].len() < 2 || total > 65535 {
+                    continue;
+                }
+                let buf: Vec<u8> = delivered[pi].iter().flat_map(|d| d.0.iter().cloned()).collect();
+                let mut fresh = NetflowParser::default();
+                let r = fresh.parse_bytes(&buf);
+                let want = format!("[{}]", delivered[pi].iter().map(|d| d.1.as_str()).filter(|x| !x.is_empty()).collect::<Vec<_>>().join(", "));
+                w.rep.count("split_epilogues", 1);
+                let d = if canon(&r) != want {
+                    Some(div("cache/split", "results", format!("{} packets delivered in one buffer decode differently than one per call", delivered[pi].len())))
+                } else if snap(&fresh) != snap(&sut.parsers[pi]) {
+                    Some(div("cache/split", "caches", format!("{} packets delivered in one buffer leave different caches: {}", delivered[pi].len(), snap_diff(&snap(&fresh), &snap(&sut.parsers[pi])))))
+                } else {
+                    None
+                };
+                if let Some(d) = d {
+                    let mut s2 = Sut::new(1);
+                    s2.parse(0, &buf);
+                    w.rep.violation(sig("C06", &d), &d, s2.replay_json());
+                    ok = false;
+                    break;
+                }
             }
         }
         if ok {
